@@ -32,6 +32,7 @@ Next ==
   \/ \E P \in 1..2 : Do("saveload", <<P>>, SaveLoad(st, P), 37)
   \* pattern 1 is a Pattern with a note; pattern ids >= 2 stand for PatternClone objects (no cells)
   \/ \E q \in {1}, m \in Mods : Do("set_note_mod", <<q, m>>, SetNoteMod(st, q, m), 41 + m)
+  \/ \E q \in {1}, n \in {32768, 65535} : Do("set_note_num", <<q, n>>, SetNoteNum(st, q, n), 47)
   \/ \E q \in {1} : Do("get_note_mod", <<q>>, GetNoteMod(st, q), 43)
 
 CoherentNow == Coherent(st)
